@@ -463,9 +463,13 @@ func (st *ex4State) handler(sv *ex4Server) server4.Handler {
 				typ = []dhcpv4.MessageType{dhcpv4.MessageTypeAck, dhcpv4.MessageTypeNak, dhcpv4.MessageTypeOffer, dhcpv4.MessageTypeDecline}[t.Weighted(6, 3, 1, 1)]
 			}
 			mods := []dhcpv4.Modifier{dhcpv4.WithMessageType(typ),
-				dhcpv4.WithYourIP(net.IPv4(192, 168, byte(sv.id), byte(10+t.Choose(4)))),
+				dhcpv4.WithYourIP([]net.IP{net.IPv4(192, 168, byte(sv.id), byte(10+t.Choose(4))), net.IPv4(192, 168, byte(sv.id), 10), net.IPv4zero, net.IPv4bcast, net.IPv4(192, 168, byte(sv.id), 255)}[t.Weighted(8, 4, 1, 1, 1)]),
 				dhcpv4.WithOption(dhcpv4.OptIPAddressLeaseTime(time.Duration(60+t.Choose(3)) * time.Second))}
-			switch t.Weighted(8, 1, 2) {
+			switch t.Weighted(8, 1, 2, 1) {
+			case 3:
+				// a server identifier option of unusual length
+				mods = append(mods, dhcpv4.WithGeneric(dhcpv4.OptionServerIdentifier, append([]byte(sv.ip.To4()), make([]byte, []int{1, 12}[t.Choose(2)])...)))
+				s.Fault("reply-odd-server-id-length")
 			case 0:
 				mods = append(mods, dhcpv4.WithOption(dhcpv4.OptServerIdentifier(sv.ip)))
 			case 1:
